@@ -47,6 +47,7 @@ Alphabet(i) ==
     [] Fam = "calls" -> {EmptyM} \cup {[EmptyM EXCEPT !.calls = <<c>>] : c \in Calls1(i)}
     [] Fam = "calls3" -> {EmptyM} \cup {[EmptyM EXCEPT !.calls = <<c>>] : c \in {d \in Calls1(i) : d.id # "q"}}
     [] Fam = "callsT" -> {EmptyM} \cup {[EmptyM EXCEPT !.calls = <<c>>] : c \in CallsT(i)}
+    [] Fam = "callsTy" -> {EmptyM} \cup {[EmptyM EXCEPT !.calls = <<Call(ix, "", ty, "", Tok("u", i))>>] : ix \in {0, 1}, ty \in {"", "p", "q"}}   \* per-index Type variety
     [] Fam = "calls2" -> {EmptyM} \cup {[EmptyM EXCEPT !.calls = <<c>>] : c \in Calls2(i)}
                          \cup {[EmptyM EXCEPT !.calls = <<c, [d EXCEPT !.args = Tok("v", i)]>>] : c \in Calls2(i), d \in Calls2(i)}
     [] Fam = "many" -> {[EmptyM EXCEPT !.calls = [k \in 1..13 |-> Call(-1, "c" \o ToString(i) \o "_" \o ToString(k), "", "", "")]],   \* > 12 calls: sort stability
@@ -67,7 +68,7 @@ Alphabet(i) ==
     [] Fam = "int" -> {[n |-> 0], [n |-> 1], [n |-> 2]}
     [] Fam = "acc" -> {[s |-> "", n |-> 0], [s |-> Tok("x", i), n |-> 1], [s |-> "", n |-> 2]}
     [] Fam = "plain" -> {[n |-> 0], [n |-> 1], [n |-> 2]}
-Kind == CASE Fam \in {"hdr", "calls", "calls3", "callsT", "calls2", "many", "meta", "extra", "extran"} -> "msg" [] Fam = "nest" -> "map" [] OTHER -> Fam
+Kind == CASE Fam \in {"hdr", "calls", "calls3", "callsT", "callsTy", "calls2", "many", "meta", "extra", "extran"} -> "msg" [] Fam = "nest" -> "map" [] OTHER -> Fam
 Paths == IF Kind = "msg" THEN {"cm", "cms"} ELSE {"ci"}      \* "graph" behaves as "cms" / "ci" in the transcription
 
 Init == cs = <<>> /\ Fam \in Fams
